@@ -1,4 +1,4 @@
-import SciVerif.Lemmas.C01p
+import SciVerif.Lemmas.C01q
 
 /-!
 # C01 — Expression solver evaluates by the documented step table
@@ -206,6 +206,60 @@ theorem C01_reject_missing_left_operand_text (alg : AtomAlg A) (lit : List Char 
     hadj u k (by simpa [lexemes_items, itemLex, OprK.sym] using hu) "operand"
     (by simpa [tokOf, tokB, OprK.name] using C01_reject_missing_left_operand alg lit hn e hwf o ho)
 
+/-! Arity rejection at a GENERAL position of the string: the ill-formed call need not be at the
+    start, it may come after any well-formed prefix.  (`C01_reject_arity` is the case of an empty
+    prefix.)  The tokeniser works through the prefix -- literals, operator symbols, well-formed
+    calls whose arguments the nested solver evaluates -- and raises at the call; nothing that
+    follows the call is looked at. -/
+
+/-- (D, string level, general position) **A call with the wrong number of arguments after a
+    well-formed expression and an operator is rejected**: `e o f(T1,…,Tk) rest` with `e` any
+    well-formed expression, `o` ANY operator symbol of the language (binary, sign, `!`), blanks
+    anywhere between the lexemes of the prefix and before the call, `k ≠ narg` balanced argument
+    texts and an arbitrary remainder `rest` makes `solve` raise "Wrong number of arguments". -/
+theorem C01_reject_arity_after_operator (alg : AtomAlg A) (lit : List Char → A) (hn : NegNeg alg)
+    (e : E) (hwf : e.WF) (hl : LitOK alg lit e) (o : OprK)
+    (u : List Char) (hu : Pre (lexemes e ++ [o.sym]) u)
+    (c : Call) (Ts : List (List Char)) (hne : Ts ≠ [])
+    (hb : ∀ T ∈ Ts, nest T 0 = some 0) (hk : Ts.length ≠ c.narg) (j : Nat) (rest : List Char) :
+    solve dflt alg dfltSteps (u ++ blanks j ++ c.sym ++ joinArgs Ts ++ ')' :: rest)
+      = .error "arity" := by
+  have := solve_arity_after alg lit hn e hwf hl [] [.opr o] (fun _ h => by cases h)
+    (fun it h => by simp only [List.mem_singleton] at h; subst h; rfl)
+    (adj_post_opr alg lit e hl _) u
+    (by simpa [lexemes_items, itemLex] using hu) c Ts hne hb hk j rest
+  simpa [List.append_assoc] using this
+
+/-- (D, string level, general position) the same for a call that follows a well-formed expression
+    directly (`e f(T1,…,Tk) rest`, a missing operator AND a wrong arity: the arity error wins,
+    as in the code, because it is raised while tokenising). -/
+theorem C01_reject_arity_after_expression (alg : AtomAlg A) (lit : List Char → A) (hn : NegNeg alg)
+    (e : E) (hwf : e.WF) (hl : LitOK alg lit e)
+    (u : List Char) (hu : Pre (lexemes e) u)
+    (c : Call) (Ts : List (List Char)) (hne : Ts ≠ [])
+    (hb : ∀ T ∈ Ts, nest T 0 = some 0) (hk : Ts.length ≠ c.narg) (j : Nat) (rest : List Char) :
+    solve dflt alg dfltSteps (u ++ blanks j ++ c.sym ++ joinArgs Ts ++ ')' :: rest)
+      = .error "arity" := by
+  have := solve_arity_after alg lit hn e hwf hl [] [] (fun _ h => by cases h)
+    (fun _ h => by cases h) (by simpa using adj_items alg lit e hl) u
+    (by simpa [lexemes_items] using hu) c Ts hne hb hk j rest
+  simpa [List.append_assoc] using this
+
+/-- (D, string level, general position) the general form: the prefix is a well-formed expression
+    framed by any operator symbols (`pre`, `post`: operator items only; `Adj`: no symbol is
+    directly followed by `*` or `=` that would extend it), e.g. `- e * -` or `! e && !`. -/
+theorem C01_reject_arity_after_prefix (alg : AtomAlg A) (lit : List Char → A) (hn : NegNeg alg)
+    (e : E) (hwf : e.WF) (hl : LitOK alg lit e)
+    (pre post : List LItem) (hpre : OprOnly pre) (hpost : OprOnly post)
+    (hadj : Adj (pre ++ items e ++ post)) (u : List Char)
+    (hu : Pre ((pre ++ items e ++ post).flatMap itemLex) u)
+    (c : Call) (Ts : List (List Char)) (hne : Ts ≠ [])
+    (hb : ∀ T ∈ Ts, nest T 0 = some 0) (hk : Ts.length ≠ c.narg) (j : Nat) (rest : List Char) :
+    solve dflt alg dfltSteps (u ++ blanks j ++ c.sym ++ joinArgs Ts ++ ')' :: rest)
+      = .error "arity" := by
+  have := solve_arity_after alg lit hn e hwf hl pre post hpre hpost hadj u hu c Ts hne hb hk j rest
+  simpa [List.append_assoc] using this
+
 /-- The full statement (character level): for every well-formed expression whose literals the
     atom class reads, and every blank oracle, `solve` on the rendered text returns `eval e`. -/
 def C01_solve_eq_eval_statement : Prop :=
@@ -303,6 +357,19 @@ example : ParenFree digAlg := by
 /-- a text of `1 *` (hypothesis of the string-level operand rejections): `1 *` with one blank -/
 example : Pre (lexemes (.num ['1']) ++ [B2.mul.sym]) ['1', ' ', '*'] := by
   simpa [blanks, lexemes, B2.sym] using Pre.cons 0 ['1'] (Pre.cons 1 ['*'] Pre.nil)
+
+/-- a prefix text for the general-position arity rejections: `1 *` in front of `sin(1,2)` -/
+example : Pre (lexemes (.num ['1']) ++ [(OprK.bin .mul).sym]) ['1', ' ', '*'] := by
+  simpa [blanks, lexemes, B2.sym, OprK.sym] using Pre.cons 0 ['1'] (Pre.cons 1 ['*'] Pre.nil)
+
+/-- `1 * sin(1,2)+7` is rejected with "arity" (instance of `C01_reject_arity_after_operator`) -/
+example : solve dflt intAlg dfltSteps
+    (['1', ' ', '*'] ++ blanks 1 ++ (Call.f1 .sin).sym ++ joinArgs [['1'], ['2']] ++ ')' :: ['+', '7'])
+      = .error "arity" :=
+  C01_reject_arity_after_operator intAlg litInt (fun a => Int.neg_neg a) (.num ['1']) trivial
+    ⟨by decide, rfl⟩ (.bin .mul) _
+    (by simpa [blanks, lexemes, B2.sym, OprK.sym] using Pre.cons 0 ['1'] (Pre.cons 1 ['*'] Pre.nil))
+    (.f1 .sin) [['1'], ['2']] (by simp) (by decide) (by decide) 1 ['+', '7']
 
 example : ¬ Balanced ['(', '1'] := by unfold Balanced; decide
 example : ¬ Balanced ['1', ')', '('] := by unfold Balanced; decide
